@@ -3,6 +3,7 @@ from __future__ import annotations
 import io
 import typing
 from base64 import b64encode
+from collections.abc import Iterator
 from enum import Enum
 
 from ..exceptions import UnrewindableBodyError
@@ -149,6 +150,10 @@ def set_file_position(
             # This differentiates from None, allowing us to catch
             # a failed `tell()` later when trying to rewind the body.
             pos = _FAILEDTELL
+    elif hasattr(body, "read") or isinstance(body, Iterator):
+        # A stream without tell() or a one-shot iterator can't be sent twice:
+        # a second attempt must fail instead of sending what is left of it.
+        pos = _FAILEDTELL
 
     return pos
 
